@@ -121,6 +121,10 @@ def c01(res, tier, seed, deep):
             reqs.append("perft 2 " + f)
         if x < (0.03 if tier == "thorough" else 0.01):
             reqs.append("perft 3 " + f)
+    # perft 3 on the sparse rule-coverage positions (stale flags only show after make-move inside the walk)
+    for f in fens[:80]:
+        if sum(ch.isalpha() for ch in f.split(" ")[0]) <= 8:
+            reqs.append("perft 3 " + f)
     # published perft counts (chessprogramming wiki) as fixed regression inputs
     reqs += ["perft 3 rnbqkbnr/pppppppp/8/8/8/8/PPPPPPPP/RNBQKBNR w KQkq - 0 1",
              "perft 3 r3k2r/p1ppqpb1/bn2pnp1/3PN3/1p2P3/2N2Q1p/PPPBBPPP/R3K2R w KQkq - 0 1",
@@ -531,7 +535,7 @@ def c04(res, tier, seed, deep):
     for f in rnd.sample(pool, n):
         reqs.append(f"search {rnd.getrandbits(32)} {rnd.choice([1, 2, 3])} 1 - 2 64 0 {f}")
     # (c) Stop at a counted instant: the k-th poll of the flag (every 10000 counted nodes)
-    cn = 10 if tier == "thorough" else (4 if deep else 3)
+    cn = 10 if tier == "thorough" else (3 if deep else 1)
     for f in rnd.sample(MIDGAME, min(len(MIDGAME), cn)):
         k = rnd.choice([0, 0, 1])
         reqs.append(f"search {rnd.getrandbits(32)} {rnd.choice(['-', '6'])} 1 {k} 4 256 0 {f}")
@@ -543,7 +547,7 @@ def c04(res, tier, seed, deep):
         items.append((r, f, o, hm.get(f, True)))
     check_lines(res, "C04", items, want_report=False)
     # (d) several workers with Stop at a counted poll
-    mreqs = [f"search {rnd.getrandbits(32)} - {rnd.choice([2, 8])} {rnd.choice([0, 3])} 4 256 0 {f}" for f in rnd.sample(MIDGAME, 2)]
+    mreqs = [f"search {rnd.getrandbits(32)} - {rnd.choice([2, 8])} {rnd.choice([0, 3])} 4 256 0 {f}" for f in rnd.sample(MIDGAME, 2 if tier == "thorough" or deep else 1)]
     mout, _, _ = wee.run_lines_parallel(wee.harness_path(), mreqs, jobs=2)
     check_lines(res, "C04", [(r, " ".join(r.split(" ")[8:]), o, True) for r, o in zip(mreqs, mout)], want_report=False)
     # (e) public API under wall-clock Stop: join latency, receiver kept or dropped, repeated Stop, artifact reusable
@@ -780,10 +784,11 @@ def c09(res, tier, seed, deep):
             reqs.append(f"leaper {k} {s}")
     for s in range(64):
         rm, bm = ray_mask(s, ROOK_D), ray_mask(s, BISH_D)
-        if tier == "thorough":
-            for kind, mask in (("r", rm), ("b", bm)):
-                for sub in subsets(mask):
-                    reqs.append(f"slider {kind} {s} {sub | (rnd.getrandbits(64) & ~mask if sub % 3 == 0 else 0)}")
+        # every subset of every relevance mask = every slot of every magic table (107648 requests,
+        # a few seconds): a single wrong slot cannot hide, in either tier
+        for kind, mask in (("r", rm), ("b", bm)):
+            for sub in subsets(mask):
+                reqs.append(f"slider {kind} {s} {sub | (rnd.getrandbits(64) & ~mask if sub % 3 == 0 else 0)}")
         cnt = 400 if tier == "thorough" else (60 if deep else 12)
         for _ in range(cnt):
             for kind, mask in (("r", rm), ("b", bm), ("q", rm | bm)):
@@ -801,8 +806,8 @@ def c09(res, tier, seed, deep):
             reqs.append(f"slider {kind} {s} {(1 << 64) - 1}")
     for i in range(0, len(reqs), 200000):
         wee.compare_batch(res, reqs[i:i + 200000], SPEC_VIEWS)
-    res.exhaustive = tier == "thorough"
-    return "all 4x64 leaper tables; per square and slider kind: random occupancies (dense, sparse, on-mask only, on-mask plus off-ray noise), empty and full boards; thorough: every subset of every rook and bishop relevance mask (all 107648 table slots) with off-ray noise on a third of them"
+    res.exhaustive = True
+    return "all 4x64 leaper tables; every subset of every rook and bishop relevance mask (all 107648 table slots) with off-ray noise on a third of them; per square and slider kind additional random occupancies (dense, sparse, on-mask only, on-mask plus off-ray noise), empty and full boards (thorough: 400 per square and kind)"
 
 
 def random_placement(rnd):
